@@ -3,6 +3,16 @@ import t3
 import tgen
 import positions as P
 
+# How the asserted expression is WRITTEN at the root: whatever its syntactic form, the assertion only borrows what it names.
+ROOT_FORMS = [("method-ref", "h.get()"), ("method-value", "h.take_clone()"), ("field", "h.inner"), ("index", "xs[0]"), ("deref-box", "*b"), ("borrow", "&v"),
+              ("call", "idt(&v)"), ("paren", "(v)"), ("method-chain", "h.get().clone()"), ("method-on-vec", "xs.first().unwrap()"), ("method-on-box", "b.as_ref()"),
+              ("nested-field-method", "hh.inner.get()"), ("block", "{ &v }")]
+ROOT_DECLS = ("#[derive(Debug, Clone)] struct Holder<T> { inner: T }\nimpl<T: Clone> Holder<T> { fn get(&self) -> &T { &self.inner } fn take_clone(&self) -> T { self.inner.clone() } }\n"
+              "fn idt<T>(x: &T) -> &T { x }\n")
+ROOT_SETUP = ("let h = Holder { inner: v.clone() }; let hh = Holder { inner: h.clone() }; let xs = vec![v.clone()]; let b = Box::new(v.clone());\n"
+              'let before = format!("{:?} {:?} {:?} {:?} {:?}", v, h, hh, xs, b);')
+ROOT_POST = 'let after = format!("{:?} {:?} {:?} {:?} {:?}", v, h, hh, xs, b); println!("X %d same={}", before == after);'
+
 MOVE_CODES = {"E0382", "E0505", "E0507", "E0508", "E0509", "E0373"}
 
 
@@ -43,6 +53,21 @@ def cases_fn(nonclone=True):
                 c.setup = 'let before = format!("{:?}", v);'
                 c.post = 'let after = format!("{:?}", v); println!("X %d same={}", before == after);' % c.id
                 cases.append(c)
+            if b < 14:
+                for fname, asserted in ROOT_FORMS:
+                    c = t3.Case()
+                    c.id = k
+                    k += 1
+                    c.base, c.position, c.gen, c.ty, c.value = b, "root:" + fname, g, t, v
+                    c.inner_pattern = pat
+                    c.form = tgen.top_form(pat)
+                    c.forms = dict(pg.forms_used)
+                    c.meanings = pg.meanings_sexp()[:-1] + " " + extra + ")"
+                    t3.finish_case(c, g.decls() + "\n" + ROOT_DECLS, g.rust_type(t), g.rust_expr(v, t), tgen.sexp(v), pat)
+                    c.text = asserted + ", " + pat
+                    c.setup = ROOT_SETUP
+                    c.post = ROOT_POST % c.id
+                    cases.append(c)
         return cases
     return make
 
@@ -56,7 +81,7 @@ def run(ck):
     nontriv = set()
     for c in cases:
         gk = c.got[0]
-        key = "%s/%s" % (P.POSITION_CLASS[c.position], c.form)
+        key = "%s/%s" % (P.POSITION_CLASS.get(c.position, c.position), c.form)
         dist[c.position + ":" + gk] = dist.get(c.position + ":" + gk, 0) + 1
         if c.form != "wild":
             nontriv.add(c.text + c.value_text)
@@ -71,5 +96,5 @@ def run(ck):
     ck.corr_record("T3 value reuse (generated programs use the asserted value after the assertion; rustc's move checker and a before/after Debug comparison decide)",
                    len(cases), len(nontriv), 0, dist,
                    samples=[dict(position=c.position, invocation="assert_struct!(%s)" % c.text, value=c.value_text, outcome=c.got[0]) for c in cases[:3]],
-                   rule="seeded non-Copy (type, value, pattern) bases x the 17 positions; distinct = distinct (invocation, value); non-trivial = the inner pattern is not `_`")
+                   rule="seeded non-Copy (type, value, pattern) bases x the 17 positions, and x 13 ways of writing the asserted expression at the root (method call, field, index, deref, borrow, call, block, ...) with every owner used afterwards; distinct = distinct (invocation, value); non-trivial = the inner pattern is not `_`")
     ck.assumptions += ["rustc's borrow checker is the oracle for 'moves'; the model's `consumes` judgment (AsModel.Static) is validated against it cell by cell"]
